@@ -33,6 +33,17 @@ def w_components():
         E("sink", j=5), E("sink", j=3), E("source", j=2)]}
 
 
+def relabelled(spec, labels, order=None, suffix="_labels"):
+    """same structure with junction labels that are not table positions (and optionally another creation order)"""
+    import copy
+    s = copy.deepcopy(spec)
+    s["name"] = spec["name"] + suffix
+    s["jl"] = list(labels)
+    if order:
+        s["jorder"] = list(order)
+    return s
+
+
 def w_fc_off():
     return {"name": "w_fc_off", "fluid": "water", "nj": 4, "elems": [
         E("ext_grid", j=0), E("pipe", f=0, to=1), E("flow_control", f=1, to=2, control_active=False),
@@ -74,6 +85,27 @@ def w_circ_mass():
         E("circ_pump_mass", ret=3, flow=0), E("pipe", f=0, to=1, u=5.0, sections=2), E("pipe", f=2, to=3, u=5.0),
         E("heat_exchanger", f=1, to=2), E("valve", j=1, el=2, et="ju"), E("ext_grid", j=0, type="p"),
         E("sink", j=2)]}
+
+
+def w_heat_line():
+    """district-heating line, three pipes with different numbers of sections (heat modes)"""
+    return {"name": "w_heat_line", "fluid": "water", "nj": 4, "elems": [
+        E("ext_grid", j=0, type="pt"), E("pipe", f=0, to=1, u=5.0, sections=3), E("pipe", f=1, to=2, u=5.0, sections=2),
+        E("pipe", f=2, to=3, u=5.0), E("sink", j=3)]}
+
+
+def w_heat_reversed():
+    """heat line with pipes entered against the flow, parallel pair with one member reversed"""
+    return {"name": "w_heat_reversed", "fluid": "water", "nj": 4, "elems": [
+        E("ext_grid", j=0, type="pt"), E("pipe", f=1, to=0, u=5.0, sections=2), E("pipe", f=1, to=2, u=5.0),
+        E("pipe", f=2, to=1, u=8.0, length_km=0.7), E("pipe", f=3, to=2, u=5.0), E("sink", j=3), E("sink", j=1)]}
+
+
+def w_nan_loads():
+    """loads with mdot_kg_per_s = NaN ("no flow known")"""
+    return {"name": "w_nan_loads", "fluid": "water", "nj": 3, "elems": [
+        E("ext_grid", j=0), E("pipe", f=0, to=1), E("pipe", f=1, to=2), E("sink", j=2), E("sink", j=1, mdot=float("nan")),
+        E("source", j=1, mdot=float("nan")), E("source", j=2, mdot=0.1), E("mass_storage", j=1, mdot=float("nan"))]}
 
 
 def g_line3():
